@@ -281,6 +281,9 @@ def _c20() -> List[Obl]:
         out.append(Obl(id=f"c20.mono_golomb.{b}", prop="C20", engine="kani", target=f"obl_codes::golomb_be::{b}::mono",
                        tier="quick" if b in GOLOMB_QUICK else "thorough", kind="bounded", bound="constant modulus (grid point " + b + "); every pair of values",
                        fns=["codes::golomb::len_golomb"]))
+    for fn in ("lemma_golomb_len_monotone", "len_golomb_monotone", "len_golomb", "len_minimal_binary"):
+        out.append(Obl(id=f"c20.verus.golomb.{fn}", prop="C20", engine="verus", target=f"golomb:{fn}", fns=["codes::golomb::len_golomb"] if not fn.startswith("lemma") else [],
+                       note="every modulus in 1..2^64 and every pair of values: len_golomb is non-decreasing (via its proved closed form)"))
     out += [Obl(id="c20.fcp.new", prop="C20", engine="verus", target="find_change:new", fns=["FindChangePoints::new"]),
            Obl(id="c20.fcp.next", prop="C20", engine="verus", target="find_change:next", fns=["FindChangePoints::next"]),
            Obl(id="c20.fcp.lemma_flat", prop="C20", engine="verus", target="find_change:lemma_flat", fns=[])]
